@@ -220,6 +220,74 @@ Section Job.
     Qed.
   End WalkX.
 
+  (* ---------------------------------------------------------------- without checksums there is no "maybe" *)
+  Section NoNeed.
+    Variable ex : list fid.
+
+    Lemma walk_no_need (I : world -> Prop) (Q : dep -> row -> Prop) isd f r :
+      r_csum r = None ->
+      (forall w1 c1 d rs v w' c' e, Q d rs -> I w1 -> isd w1 c1 (d_source d) rs = Ret (v, w', c', e) ->
+         I w' /\ forall l, v <> VNeed l) ->
+      forall ds w c evs v w' c' e, Forall (fun x => Q (fst x) (snd x)) ds -> I w ->
+        walk_deps isd R f r ds w c [] evs = Ret (v, w', c', e) -> forall l, v <> VNeed l.
+    Proof.
+      intros Hcs Hisd. induction ds as [|[d rs] ds IHds]; intros w c evs v w' c' e HQ Hw H l; cbn [walk_deps] in H.
+      - destruct c; injection H as <- _ _ _; discriminate.
+      - inversion HQ as [|x l0 Hq Hqs]; subst. cbn [fst snd] in Hq. destruct (d_mode d).
+        + destruct (exists_b w (r_name rs)).
+          * rewrite Hcs in H. injection H as <- _ _ _. discriminate.
+          * eapply IHds; [exact Hqs|exact Hw|exact H].
+        + destruct (isd w c (d_source d) rs) as [[[[v1 w1] c1] e1]|] eqn:E; [|discriminate].
+          destruct (Hisd _ _ _ _ _ _ _ _ Hq Hw E) as [Hw1 Hnn]. destruct v1.
+          * eapply IHds; [exact Hqs|exact Hw1|exact H].
+          * rewrite Hcs in H. injection H as <- _ _ _. discriminate.
+          * exfalso. exact (Hnn _ eq_refl).
+          * injection H as <- _ _ _. discriminate.
+    Qed.
+
+    Lemma ld_csum_none w g : XR w ex -> r_csum (ldw w g) = None.
+    Proof.
+      intro Hx. destruct (load_fields w g) as (L1 & _). rewrite L1.
+      destruct (Nat.le_gt_cases 1 g) as [G1|G1]; [destruct (Nat.le_gt_cases g (length (rows (dbs w)))) as [G2|G2]|].
+      - destruct (Hx g (conj G1 G2)) as (A & _). exact A.
+      - unfold get_row. rewrite nth_overflow by lia. reflexivity.
+      - assert (g = 0)%nat by lia. subst g.
+        destruct (rows (dbs w)) as [|r0 l] eqn:El; [unfold get_row; rewrite El; reflexivity|].
+        assert (V : valid w 1%nat) by (unfold valid; rewrite El; cbn; lia).
+        destruct (Hx 1%nat V) as (A & _). exact A.
+    Qed.
+
+    Lemma is_dirty_no_need : forall fuel cyc w0 w c f mx seen v w' c' evs,
+      xs ex w0 w -> XR w0 ex -> deps_valid w -> valid w f ->
+      is_dirty fuel R cyc w c f (ldw w0 f) mx seen = Ret (v, w', c', evs) -> forall l, v <> VNeed l.
+    Proof.
+      induction fuel as [|fuel IH]; intros cyc w0 w c f mx seen v w' c' evs Hxs X0 Hdv Hf H l; [discriminate|].
+      pose proof Hxs as (Hfs & Hnm & Hdp & X).
+      cbn [is_dirty] in H.
+      destruct (existsb (Nat.eqb f) seen); [injection H as <- _ _ _; discriminate|].
+      destruct (r_failed (ldw w0 f)); [injection H as <- _ _ _; discriminate|].
+      destruct (r_changed (ldw w0 f)) as [chg|]; [|injection H as <- _ _ _; discriminate].
+      destruct (Z.ltb mx chg); [injection H as <- _ _ _; discriminate|].
+      destruct (chk_is_checked c R (ldw w0 f) f); [injection H as <- _ _ _; discriminate|].
+      destruct (r_stamp (ldw w0 f)) as [old|]; [|injection H as <- _ _ _; discriminate].
+      pose proof (ld_csum_none w0 f X0) as Hcs.
+      destruct (negb (stamp_eqb old (read_stamp w (r_name (ldw w0 f))))).
+      - rewrite Hcs in H. injection H as <- _ _ _. discriminate.
+      - eapply (walk_no_need (fun wk => xs ex w wk) (fun d rs => rs = ldw w (d_source d) /\ In d (deps (dbs w))));
+          [exact Hcs| | |split; [reflexivity|split; [reflexivity|split; [reflexivity|exact X]]]|exact H].
+        + intros w1 c1 d rs v1 w1' c1' e1 [-> Hin] Hw1 E. cbv beta in E.
+          destruct (existsb (Nat.eqb (d_source d)) cyc); [injection E as <- <- _ _; split; [exact Hw1|discriminate]|].
+          pose proof Hw1 as (F1 & N1 & D1 & X1).
+          assert (Hdv1 : deps_valid w1) by (intros d' Hd'; rewrite D1 in Hd'; eapply valid_names; [exact N1|]; apply Hdv; exact Hd').
+          assert (Hv1 : valid w1 (d_source d)) by (eapply valid_names; [exact N1|]; apply Hdv; exact Hin).
+          split.
+          * eapply xs_trans; [exact Hw1|]. eapply (is_dirty_XR ex); [exact Hw1|exact X|exact Hdv1|exact Hv1|exact E].
+          * eapply (IH cyc w w1); [exact Hw1|exact X|exact Hdv1|exact Hv1|exact E].
+        + eapply Forall_impl; [|apply deps_rows_loaded]. cbn. intros x [Hx1 Hx2]. split; [exact Hx2|].
+          exact (proj1 (in_deps_of _ _ _ _ Hx1)).
+    Qed.
+  End NoNeed.
+
   (* ================================================================ the job invariant *)
   Definition CRE (w : world) : Prop :=
     forall d, In d (deps (dbs w)) -> d_mode d = DCreated -> watched (nm w (d_source d)) = true.
@@ -599,5 +667,429 @@ Section Job.
       unfold read_stamp in *. rewrite (Hfs _ (Hrow g Hg Hex)). exact B2.
     - intros d Hin Hm. rewrite Hdb in Hin. rewrite Hnm. apply Hc; assumption.
     - intros x Hx'. destruct (Hu x Hx') as [A B]. rewrite Hval, Hnm. auto.
+  Qed.
+
+  (* ================================================================ the project *)
+  Definition plain (sc : script) : Prop :=
+    s_tol sc = false /\ s_always sc = false /\ s_stamp sc = false /\ s_ifcreate sc = [].
+
+  Definition script_of (fl : file) : script :=
+    match f_script fl with Some sc => sc | None => default_script end.
+
+  Definition PROJ (w : world) : Prop :=
+    (forall t, watched t = false -> reserved t = false) /\
+    (forall t c, watched t = false -> In c (do_candidates (updepth w) t) ->
+       watched (cand_key (updepth w) c) = true /\ reserved (cand_key (updepth w) c) = false /\
+       (rk (cand_key (updepth w) c) < rk t)%nat) /\
+    (forall t c fl, watched t = false -> In c (do_candidates (updepth w) t) ->
+       fs_get (fs w) (cand_key (updepth w) c) = Some fl ->
+       plain (script_of fl) /\ forall d, In d (s_deps (script_of fl)) -> watched d = false /\ (rk d < rk t)%nat).
+
+  Definition wsame (w w' : world) : Prop :=
+    updepth w' = updepth w /\ forall n, watched n = true -> fs_get (fs w') n = fs_get (fs w) n.
+
+  Lemma wsame_refl w : wsame w w.
+  Proof. split; auto. Qed.
+  Lemma wsame_trans a b c : wsame a b -> wsame b c -> wsame a c.
+  Proof. intros [A1 A2] [B1 B2]. split; [congruence|]. intros n Hn. rewrite B2, A2; auto. Qed.
+
+  Lemma PROJ_wsame w w' : wsame w w' -> PROJ w -> PROJ w'.
+  Proof.
+    intros [Hu Hf] (P1 & P2 & P3). split; [exact P1|]. rewrite Hu. split; [exact P2|].
+    intros t c fl Ht Hc Hfl. destruct (P2 t c Ht Hc) as (W & _ & _). rewrite (Hf _ W) in Hfl. eapply P3; eauto.
+  Qed.
+
+  (* ================================================================ what a job or a command does *)
+  Definition same_at (x : fid) (w w' : world) : Prop :=
+    get_row (dbs w') x = get_row (dbs w) x /\
+    forall d, d_target d = x -> (In d (deps (dbs w')) <-> In d (deps (dbs w))).
+
+  (* [ex]: the targets in mid-build (outside the invariant); [fr] (among them): those this step does not touch *)
+  Definition jstep (ex fr : list fid) (w w' : world) : Prop :=
+    NAMES w w' /\ wsame w w' /\ JINV w' ex /\ (forall g, ok w ex g -> ok w' ex g) /\
+    forall x, In x fr -> same_at x w w'.
+
+  Lemma jstep_refl ex fr w : JINV w ex -> jstep ex fr w w.
+  Proof.
+    intro H. split; [apply NAMES_refl|]. split; [apply wsame_refl|]. split; [exact H|]. split; [auto|].
+    intros x _. split; [reflexivity|]. intros d _. tauto.
+  Qed.
+  Lemma jstep_trans ex fr a b c : jstep ex fr a b -> jstep ex fr b c -> jstep ex fr a c.
+  Proof.
+    intros (A1 & A2 & A3 & A4 & A5) (B1 & B2 & B3 & B4 & B5).
+    split; [eapply NAMES_trans; eauto|]. split; [eapply wsame_trans; eauto|]. split; [exact B3|]. split; [auto|].
+    intros x Hx. destruct (A5 x Hx) as [R1 D1]. destruct (B5 x Hx) as [R2 D2]. split; [congruence|].
+    intros d Hd. rewrite (D2 d Hd). apply D1. exact Hd.
+  Qed.
+  Lemma jstep_weaken ex fr fr' a b : (forall x, In x fr' -> In x fr) -> jstep ex fr a b -> jstep ex fr' a b.
+  Proof. intros Hs (A1 & A2 & A3 & A4 & A5). split; [exact A1|split; [exact A2|split; [exact A3|split; [exact A4|auto]]]]. Qed.
+
+  (* the steps of a job, as jsteps: [f] is the job's own target *)
+  Definition deps_other (f : fid) (l l' : list dep) : Prop :=
+    forall x, d_target x <> f -> (In x l' <-> In x l).
+
+  Lemma deps_other_add l t m s : deps_other t l (deps (add_dep {| rows := []; deps := l; maxrun := 0 |} t m s)).
+  Proof.
+    intros x Hx. cbn [add_dep deps]. rewrite in_app_iff, filter_In. cbn [In]. split.
+    - intros [[A _]|[<-|[]]]; [exact A|cbn in Hx; congruence].
+    - intro A. left. split; [exact A|]. unfold dep_key_eqb.
+      assert (E : Nat.eqb (d_target x) t = false) by (apply Nat.eqb_neq; exact Hx). now rewrite E.
+  Qed.
+
+  Lemma deps_other_zap1 l f : deps_other f l (deps (zap_deps1 {| rows := []; deps := l; maxrun := 0 |} f)).
+  Proof.
+    intros x Hx. cbn [zap_deps1 deps]. rewrite in_map_iff. split.
+    - intros (y & <- & Hy). destruct (Nat.eqb (d_target y) f) eqn:E; [|exact Hy].
+      cbn [d_target] in Hx. apply Nat.eqb_eq in E. congruence.
+    - intro A. exists x. split; [|exact A].
+      assert (E : Nat.eqb (d_target x) f = false) by (apply Nat.eqb_neq; exact Hx). now rewrite E.
+  Qed.
+
+  Lemma deps_other_zap2 l f : deps_other f l (deps (zap_deps2 {| rows := []; deps := l; maxrun := 0 |} f)).
+  Proof.
+    intros x Hx. cbn [zap_deps2 deps]. rewrite filter_In. split; [tauto|]. intro A. split; [exact A|].
+    assert (E : Nat.eqb (d_target x) f = false) by (apply Nat.eqb_neq; exact Hx). now rewrite E.
+  Qed.
+
+  Lemma jstep_db ex f w w1 :
+    ~ In f ex -> (forall x, In x ex -> valid w x) ->
+    extends w w1 -> JINV w1 (f :: ex) -> (forall g, ok w (f :: ex) g -> ok w1 (f :: ex) g) ->
+    deps_other f (deps (dbs w)) (deps (dbs w1)) ->
+    jstep (f :: ex) ex w w1.
+  Proof.
+    intros Hf Hval Hext Hj Hm Hd. pose proof Hext as (Hfs & Hup & Hn & Hrows).
+    split; [exact Hn|]. split; [split; [exact Hup|intros n _; now rewrite Hfs]|]. split; [exact Hj|]. split; [exact Hm|].
+    intros x Hx.
+    split; [apply Hrows; apply Hval; exact Hx|]. intros d Hdt. apply Hd. intro E. rewrite Hdt in E. apply Hf. rewrite <- E. exact Hx.
+  Qed.
+
+  (* ---------------------------------------------------------------- the dependency rows of the job's own target *)
+  Definition gooddep (w : world) (ex : list fid) (P : fid -> Prop) (d : dep) : Prop :=
+    (d_mode d = DCreated -> exists_b w (nm w (d_source d)) = false) /\
+    (d_mode d = DModified -> ok w ex (d_source d) \/ P (d_source d)).
+  Definition GOODF (w : world) (ex : list fid) (f : fid) (P : fid -> Prop) : Prop :=
+    forall d, In d (deps (dbs w)) -> d_target d = f -> d_delete d = true \/ gooddep w ex P d.
+
+  Lemma GOODF_weaken w ex f (P P' : fid -> Prop) :
+    (forall s, P s -> ok w ex s \/ P' s) -> GOODF w ex f P -> GOODF w ex f P'.
+  Proof.
+    intros HP H d Hin Ht. destruct (H d Hin Ht) as [X|[A B]]; [now left|right]. split; [exact A|].
+    intro Hm. destruct (B Hm) as [Y|Y]; [now left|apply HP; exact Y].
+  Qed.
+
+  Lemma GOODF_jstep w w' ex fr f P :
+    In f fr -> JINV w ex -> jstep ex fr w w' -> GOODF w ex f P -> GOODF w' ex f P.
+  Proof.
+    intros Hf Hj (Hn & (Hup & Hws) & Hj' & Hm & Hfr) H d Hin Ht.
+    destruct (Hfr f Hf) as [_ Hd]. apply (Hd d Ht) in Hin.
+    destruct (H d Hin Ht) as [X|[A B]]; [now left|right].
+    pose proof (JINV_edges w ex Hj d Hin) as (_ & Vs & _ & _ & Hc).
+    split.
+    - intro Hmode. unfold exists_b, nm in *. rewrite (NAMES_get_row w w' _ Hn) by (destruct Vs; lia).
+      rewrite Hws; [exact (A Hmode)|]. exact (Hc Hmode).
+    - intro Hmode. destruct (B Hmode) as [Y|Y]; [left; apply Hm; exact Y|now right].
+  Qed.
+
+  Lemma extends_refl w : extends w w.
+  Proof. split; [reflexivity|split; [reflexivity|split; [apply NAMES_refl|auto]]]. Qed.
+  Lemma extends_trans a b c : extends a b -> extends b c -> extends a c.
+  Proof.
+    intros (A1 & A2 & A3 & A4) (B1 & B2 & B3 & B4).
+    split; [congruence|]. split; [congruence|]. split; [eapply NAMES_trans; eauto|].
+    intros g Hg. rewrite B4; [apply A4; exact Hg|]. eapply extends_valid; [|exact Hg]. split; [exact A1|split; [exact A2|split; [exact A3|exact A4]]].
+  Qed.
+
+  Lemma gooddep_ext w w2 ex (P P' : fid -> Prop) d :
+    extends w w2 -> (forall g, ok w ex g -> ok w2 ex g) -> valid w (d_source d) -> (forall x, P x -> P' x) ->
+    gooddep w ex P d -> gooddep w2 ex P' d.
+  Proof.
+    intros Hext Hm Vs HP [A B]. pose proof Hext as (Fs & _). split.
+    - intro X. unfold exists_b in *. rewrite Fs, (extends_nm w w2 _ Hext Vs). exact (A X).
+    - intro X. destruct (B X) as [Y|Y]; [left; apply Hm; exact Y|right; apply HP; exact Y].
+  Qed.
+
+  (* one dependency of the job's own target is (re-)declared *)
+  Lemma add_edge_step ex f w n m d1 s :
+    JINV w (f :: ex) -> ~ In f ex -> reserved n = false ->
+    (m = DModified -> (rk n < rkf rk w f)%nat) -> (m = DCreated -> watched n = true) ->
+    from_name (dbs w) n = (d1, s) ->
+    let w2 := set_db w (add_dep d1 f m s) in
+    jstep (f :: ex) ex w w2 /\ extends w w2 /\ valid w2 s /\ nm w2 s = n /\
+    find_row (rows (dbs w2)) n 1 = Some s /\
+    forall P P' : fid -> Prop, (forall x, P x -> P' x) ->
+      GOODF w (f :: ex) f P ->
+      gooddep w2 (f :: ex) P' {| d_target := f; d_source := s; d_mode := m; d_delete := false |} ->
+      GOODF w2 (f :: ex) f P'.
+  Proof.
+    intros Hj Hf Hres Hrk Hwt Hfn. cbv zeta.
+    destruct (from_name_JINV w (f :: ex) n d1 s Hj Hres Hfn) as (E1 & J1 & M1 & V1 & N1 & D1 & F1 & _).
+    set (w1 := set_db w d1) in *.
+    assert (Hfin : In f (f :: ex)) by now left.
+    pose proof Hj as (_ & _ & _ & Hu). destruct (Hu f Hfin) as [Vf _].
+    assert (Hnmf : nm w1 f = nm w f) by (apply extends_nm; assumption).
+    destruct (add_dep_JINV w1 (f :: ex) f m s J1 Hfin V1) as (E2 & J2 & M2).
+    { apply not_reserved_not_alw. rewrite N1. exact Hres. }
+    { intro Hm. unfold rkf. rewrite N1, Hnmf. apply Hrk. exact Hm. }
+    { intro Hm. rewrite N1. apply Hwt. exact Hm. }
+    change (set_db w1 (add_dep (dbs w1) f m s)) with (set_db w (add_dep d1 f m s)) in *.
+    set (w2 := set_db w (add_dep d1 f m s)) in *.
+    assert (E12 : extends w w2) by (eapply extends_trans; eauto).
+    assert (Hdo : deps_other f (deps (dbs w)) (deps (dbs w2))).
+    { intros x Hx. cbn [w2 dbs set_db]. rewrite <- D1. apply (deps_other_add (deps d1) f m s x Hx). }
+    split.
+    { apply jstep_db; [exact Hf| |exact E12|exact J2| |exact Hdo].
+      - intros x Hx. destruct (Hu x (or_intror Hx)) as [A _]. exact A.
+      - intros g Hg. apply M2. apply M1. exact Hg. }
+    split; [exact E12|]. split; [exact (extends_valid w1 w2 s E2 V1)|].
+    split; [rewrite (extends_nm w1 w2 s E2 V1); exact N1|].
+    split; [cbn [w2 dbs set_db add_dep rows]; exact F1|].
+    intros P P' HP Hg Hnew d Hin Ht.
+    cbn [w2 dbs set_db add_dep deps] in Hin. apply in_app_or in Hin as [Hin|[<-|[]]].
+    - apply filter_In in Hin as [Hin _]. rewrite D1 in Hin. destruct (Hg d Hin Ht) as [X|G]; [now left|right].
+      pose proof (JINV_edges w (f :: ex) Hj d Hin) as (_ & Vs & _).
+      apply (gooddep_ext w w2 (f :: ex) P P' d E12); auto.
+    - right. exact Hnew.
+  Qed.
+
+  Lemma GOODF_refl_db w ex f P : GOODF w ex f P -> GOODF (set_db w (dbs w)) ex f P.
+  Proof. now rewrite set_db_same. Qed.
+
+  (* paths::find_do_file: a redo-ifcreate edge on every missing candidate, a redo-ifchange edge on the first existing one *)
+  Lemma find_do_spec ex f t w0 :
+    ~ In f ex -> watched t = false -> PROJ w0 ->
+    forall cands, (forall c, In c cands -> In c (do_candidates (updepth w0) t)) ->
+    forall w (P : fid -> Prop), fs w = fs w0 -> updepth w = updepth w0 -> JINV w (f :: ex) -> nm w f = t ->
+      GOODF w (f :: ex) f P ->
+    forall d2 found, find_do_file w0 (dbs w) f cands = (d2, found) ->
+      jstep (f :: ex) ex w (set_db w d2) /\ extends w (set_db w d2) /\
+      match found with
+      | None => GOODF (set_db w d2) (f :: ex) f P
+      | Some (c, sc) =>
+          In c cands /\ (exists fl, fs_get (fs w0) (cand_key (updepth w0) c) = Some fl /\ sc = script_of fl) /\
+          exists s, find_row (rows d2) (cand_key (updepth w0) c) 1 = Some s /\
+                    GOODF (set_db w d2) (f :: ex) f (fun x => P x \/ x = s)
+      end.
+  Proof.
+    intros Hf Hwt (P1 & P2 & P3).
+    induction cands as [|c cs IH]; intros Hsub w P Hfs Hup Hj Hnm Hg d2 found H; cbn [find_do_file] in H.
+    - injection H as <- <-. rewrite set_db_same. split; [apply jstep_refl; exact Hj|]. split; [apply extends_refl|exact Hg].
+    - destruct (P2 t c Hwt (Hsub c (or_introl eq_refl))) as (Wk & Rk & Lk).
+      set (dn := cand_key (updepth w0) c) in *.
+      destruct (fs_get (fs w0) dn) as [fl|] eqn:Efs.
+      + destruct (from_name (dbs w) dn) as [d1 s] eqn:Efn. injection H as <- <-.
+        assert (Hrk1 : DModified = DModified -> (rk dn < rkf rk w f)%nat) by (intros _; unfold rkf; rewrite Hnm; exact Lk).
+        assert (Hwt1 : DModified = DCreated -> watched dn = true) by (intro X; discriminate X).
+        destruct (add_edge_step ex f w dn DModified d1 s Hj Hf Rk Hrk1 Hwt1 Efn) as (J & E & V & N & F & G).
+        split; [exact J|]. split; [exact E|]. split; [now left|]. split; [exists fl; split; [exact Efs|reflexivity]|].
+        exists s. split; [exact F|].
+        apply (G P (fun x => P x \/ x = s)); [intros x Hx; now left|exact Hg|].
+        split; [intro X; discriminate X|]. intros _. right. now right.
+      + destruct (from_name (dbs w) dn) as [d1 s] eqn:Efn.
+        assert (Hrk1 : DCreated = DModified -> (rk dn < rkf rk w f)%nat) by (intro X; discriminate X).
+        assert (Hwt1 : DCreated = DCreated -> watched dn = true) by (intros _; exact Wk).
+        destruct (add_edge_step ex f w dn DCreated d1 s Hj Hf Rk Hrk1 Hwt1 Efn) as (J & E & V & N & F & G).
+        set (w1 := set_db w (add_dep d1 f DCreated s)) in *.
+        assert (Hg1 : GOODF w1 (f :: ex) f P).
+        { apply (G P P); [auto|exact Hg|]. split; [|intro X; discriminate X]. intros _.
+          unfold exists_b. cbn [d_source]. rewrite N. destruct E as (Fs & _). rewrite Fs, Hfs, Efs. reflexivity. }
+        destruct J as (J1 & J2 & J3 & J4 & J5).
+        destruct (IH (fun c' Hc' => Hsub c' (or_intror Hc')) w1 P) with (d2 := d2) (found := found) as (K & E2 & M).
+        { destruct E as (Fs & _). congruence. }
+        { destruct E as (_ & Us & _). congruence. }
+        { exact J3. }
+        { rewrite (extends_nm w w1 f E); [exact Hnm|]. destruct Hj as (_ & _ & _ & Hu). exact (proj1 (Hu f (or_introl eq_refl))). }
+        { exact Hg1. }
+        { exact H. }
+        change (set_db w1 d2) with (set_db w d2) in *.
+        split; [eapply jstep_trans; [split; [exact J1|split; [exact J2|split; [exact J3|split; [exact J4|exact J5]]]]|exact K]|].
+        split; [eapply extends_trans; eauto|].
+        destruct found as [[c' sc]|]; [|exact M].
+        destruct M as (M1 & M2 & M3). split; [now right|]. split; [exact M2|exact M3].
+  Qed.
+
+  (* ---------------------------------------------------------------- a check that does not answer "clean" *)
+  Lemma walk_not_clean_inv (I : world -> Prop) (Q : dep -> row -> Prop) isd f r :
+    (forall w1 c1 d rs v w' c' evs, Q d rs -> d_mode d = DModified -> I w1 ->
+       isd w1 c1 (d_source d) rs = Ret (v, w', c', evs) -> I w') ->
+    forall ds w0 c0 must evs0 v w' c' evs,
+      Forall (fun x => Q (fst x) (snd x)) ds ->
+      I w0 -> walk_deps isd R f r ds w0 c0 must evs0 = Ret (v, w', c', evs) -> v <> VClean -> I w'.
+  Proof.
+    intros Hisd. induction ds as [|[d rs] ds IHds]; intros w0 c0 must evs0 v w' c' evs HQ Hw0 H Hv; cbn [walk_deps] in H.
+    - destruct must; [destruct c0; injection H as <- _ _ _; contradiction|]. injection H as _ <- _ _. exact Hw0.
+    - inversion HQ as [|x l Hq Hqs]; subst. cbn [fst snd] in Hq. destruct (d_mode d) eqn:Em.
+      + destruct (exists_b w0 (r_name rs)).
+        * injection H as _ <- _ _. exact Hw0.
+        * eapply IHds; [exact Hqs|exact Hw0|exact H|exact Hv].
+      + destruct (isd w0 c0 (d_source d) rs) as [[[[v1 w1] c1] e1]|] eqn:E; [|discriminate].
+        pose proof (Hisd _ _ _ _ _ _ _ _ Hq Em Hw0 E) as H1. destruct v1.
+        * eapply IHds; [exact Hqs|exact H1|exact H|exact Hv].
+        * injection H as _ <- _ _. exact H1.
+        * eapply IHds; [exact Hqs|exact H1|exact H|exact Hv].
+        * injection H as _ <- _ _. exact H1.
+  Qed.
+
+  (* the row of the checked target afterwards: as it was, or still out of step with its file *)
+  Lemma root_row fuel cyc w c f mx seen v w' c' evs :
+    edges_ok rk w ->
+    is_dirty fuel R cyc w c f (ldw w f) mx seen = Ret (v, w', c', evs) -> v <> VClean ->
+    get_row (dbs w') f = get_row (dbs w) f \/
+    (exists old, r_stamp (ldw w' f) = Some old /\ r_name (ldw w' f) = r_name (ldw w f) /\
+                 stamp_eqb old (read_stamp w (r_name (ldw w f))) = false).
+  Proof.
+    intros He H Hv. destruct fuel as [|fuel]; [discriminate|]. cbn [is_dirty] in H.
+    destruct (existsb (Nat.eqb f) seen); [injection H as _ <- _ _; now left|].
+    destruct (r_failed (ldw w f)); [injection H as _ <- _ _; now left|].
+    destruct (r_changed (ldw w f)) as [chg|]; [|injection H as _ <- _ _; now left].
+    destruct (Z.ltb mx chg); [injection H as _ <- _ _; now left|].
+    destruct (chk_is_checked c R (ldw w f) f); [injection H as <- _ _ _; contradiction|].
+    destruct (r_stamp (ldw w f)) as [old|] eqn:Hs; [|injection H as _ <- _ _; now left].
+    destruct (stamp_eqb old (read_stamp w (r_name (ldw w f)))) eqn:Hok; cbn [negb] in H.
+    - left.
+      eapply (walk_not_clean_inv (fun wk => names (dbs wk) = names (dbs w) /\ deps (dbs wk) = deps (dbs w) /\
+                                           get_row (dbs wk) f = get_row (dbs w) f)
+                                 (fun d rs => rs = ldw w (d_source d) /\ In d (deps (dbs w)) /\ d_target d = f));
+        [| |split; [reflexivity|split; reflexivity]|exact H|exact Hv].
+      + intros w1 c1 d rs v1 w1' c1' e1 (-> & Hin & Ht) Em (N1 & D1 & R1) E. cbv beta in E.
+        destruct (existsb (Nat.eqb (d_source d)) cyc); [injection E as _ <- _ _; auto|].
+        destruct (He d Hin) as (_ & _ & _ & Hr). specialize (Hr Em). rewrite Ht in Hr.
+        destruct (is_dirty_frame _ _ w w1 _ _ _ _ _ _ _ _ N1 (edges_ok_same w w1 N1 D1 He) E) as (N2 & D2 & A2).
+        split; [congruence|]. split; [congruence|]. rewrite A2; [exact R1| |].
+        * unfold rkf in *. rewrite !(nm_names w w1 _ N1). lia.
+        * intro E2. pose proof (same_slot_same_rank w1 f (d_source d) E2) as E3.
+          unfold rkf in *. rewrite !(nm_names w w1 _ N1) in E3. lia.
+      + eapply Forall_impl; [|apply deps_rows_loaded]. cbn. intros x [Hx1 Hx2]. split; [exact Hx2|].
+        destruct (in_deps_of _ _ _ _ Hx1) as [A B]. auto.
+    - right. injection H as _ <- _ _. unfold forget_missing.
+      destruct (read_stamp w (r_name (ldw w f))) eqn:Ens; [|exists old; auto].
+      destruct (r_gen (ldw w f)); [|exists old; auto].
+      exists old. cbn [dbs set_db].
+      destruct (Nat.le_gt_cases (length (rows (dbs w))) (f - 1)) as [Hb|Hb].
+      + rewrite (put_row_beyond (dbs w) f _ Hb). auto.
+      + rewrite (ld_put_row_same R (dbs w) f _ f eq_refl Hb). rewrite view_row_name, view_row_stamp.
+        cbn [upd_row r_name r_stamp]. auto.
+  Qed.
+
+  Lemma check_not_ok w ex fuel cyc f v w' c' evs :
+    edges_ok rk w -> fs w' = fs w -> deps (dbs w') = deps (dbs w) ->
+    is_dirty fuel R cyc w ChkDb f (ldw w f) R [] = Ret (v, w', c', evs) -> v <> VClean -> ~ ok w' ex f.
+  Proof.
+    intros He Hfs Hdp H Hv Hok. destruct Hok as [g _ _ _ Hb Hm _].
+    destruct Hb as (Hfl & (chg & Hc & Hle) & old & Hs & Hst).
+    destruct (root_row fuel cyc w ChkDb g R [] v w' c' evs He H Hv) as [Hrow|(old' & Hs' & Hn' & Hmis)].
+    - assert (E : ldw w' g = ldw w g) by (unfold load; now rewrite Hrow).
+      rewrite E in *. unfold read_stamp in Hst. rewrite Hfs in Hst. fold (read_stamp w (r_name (ldw w g))) in Hst.
+      destruct fuel as [|fuel]; [discriminate|]. cbn [is_dirty existsb] in H. rewrite Hfl, Hc in H.
+      assert (El : Z.ltb R chg = false) by (apply Z.ltb_ge; exact Hle). rewrite El in H.
+      cbn [chk_is_checked] in H. fold (marked (ldw w g)) in H.
+      destruct Hm as [Hm|Hm].
+      + rewrite Hm in H. injection H as <- _ _ _. contradiction.
+      + destruct (marked (ldw w g)); [injection H as <- _ _ _; contradiction|].
+        rewrite Hs, Hst in H. cbn [negb] in H. unfold deps_rows in H. unfold deps_of in Hm. rewrite Hdp in Hm.
+        fold (deps_of (dbs w) (ldw w g) g) in Hm. rewrite Hm in H. cbn [map walk_deps] in H.
+        injection H as <- _ _ _. contradiction.
+    - rewrite Hs' in Hs. injection Hs as <-. unfold read_stamp in Hst. rewrite Hfs, Hn' in Hst.
+      fold (read_stamp w (r_name (ldw w g))) in Hst. congruence.
+  Qed.
+
+  Lemma is_dirty_updepth : forall fuel cyc w c f r mx seen v w' c' evs,
+    is_dirty fuel R cyc w c f r mx seen = Ret (v, w', c', evs) -> updepth w' = updepth w.
+  Proof.
+    induction fuel as [|fuel IH]; intros cyc w c f r mx seen v w' c' evs H; [discriminate|].
+    cbn [is_dirty] in H.
+    destruct (existsb (Nat.eqb f) seen); [inversion H; reflexivity|].
+    destruct (r_failed r); [inversion H; reflexivity|].
+    destruct (r_changed r) as [chg|]; [|inversion H; reflexivity].
+    destruct (Z.ltb mx chg); [inversion H; reflexivity|].
+    destruct (chk_is_checked c R r f); [inversion H; reflexivity|].
+    destruct (r_stamp r) as [old|]; [|inversion H; reflexivity].
+    destruct (negb (stamp_eqb old (read_stamp w (r_name r)))).
+    { inversion H; subst. unfold forget_missing.
+      destruct (read_stamp w (r_name r)); [destruct (r_gen r)|]; reflexivity. }
+    eapply (walk_deps_inv (fun w1 => updepth w1 = updepth w) (fun _ _ => True)); [| |apply Forall_trivial|reflexivity|exact H].
+    - intros w1 c1 d rs v1 w1' c1' e1 _ Hw1 E. cbv beta in E.
+      destruct (existsb (Nat.eqb (d_source d)) cyc); [inversion E; subst; exact Hw1|].
+      rewrite <- Hw1. eapply IH; exact E.
+    - intros w1 Hw1. exact Hw1.
+  Qed.
+
+  (* the first look at a requested target: everything the job invariant and its user need *)
+  Lemma check_jstep w ex fuel cyc f v w' c' evs :
+    JINV w ex -> valid w f -> reserved (nm w f) = false -> below rk w f ex ->
+    is_dirty fuel R cyc w ChkDb f (ldw w f) R [] = Ret (v, w', c', evs) ->
+    jstep ex ex w w' /\ (v = VClean -> ok w' ex f) /\ (v <> VClean -> ~ ok w' ex f) /\ (forall l, v <> VNeed l) /\
+    names (dbs w') = names (dbs w).
+  Proof.
+    intros Hj Hf Hres Hbel H. pose proof Hj as (Hinv & Hx & Hc & Hu).
+    pose proof Hinv as [(Hnd & He & Hb) Hmark].
+    assert (Ha : is_alw w f = false) by (apply not_reserved_not_alw; exact Hres).
+    destruct (is_dirty_INV R Rpos rk ex fuel cyc w w f R [] v w' c' evs (walkrel_refl R w) Hb Hinv Hbel Hf Ha H)
+      as (((F & D & N & K) & Hinv' & Hmono) & _ & Hcl).
+    assert (Hdv : deps_valid w) by (intros d Hin; destruct (He d Hin) as (_ & V & _); exact V).
+    assert (Hxs : xs ex w w) by (split; [reflexivity|split; [reflexivity|split; [reflexivity|exact Hx]]]).
+    destruct (is_dirty_XR ex fuel cyc w w ChkDb f R [] v w' c' evs Hxs Hx Hdv Hf H) as (_ & _ & _ & Hx').
+    destruct (is_dirty_frame fuel cyc w w ChkDb f R [] v w' c' evs eq_refl He H) as (_ & _ & Habove).
+    pose proof (is_dirty_updepth _ _ _ _ _ _ _ _ _ _ _ _ H) as Hup.
+    assert (Hj' : JINV w' ex).
+    { split; [exact Hinv'|]. split; [exact Hx'|]. split.
+      - intros d Hin Hm. rewrite D in Hin. rewrite (nm_names w w' _ N). apply Hc; assumption.
+      - intros x Hx0. destruct (Hu x Hx0) as [A B]. split; [eapply valid_names; eauto|]. now rewrite (nm_names w w' x N). }
+    split; [|split; [exact Hcl|split; [|split; [|exact N]]]].
+    - split; [exists []; rewrite N; now rewrite app_nil_r|]. split; [split; [exact Hup|intros n _; now rewrite F]|].
+      split; [exact Hj'|]. split; [exact Hmono|].
+      intros x Hx0. split.
+      + apply Habove; [specialize (Hbel x Hx0); lia|].
+        intro E. pose proof (same_slot_same_rank w x f E). specialize (Hbel x Hx0). lia.
+      + intros d _. now rewrite D.
+    - intro Hv. eapply check_not_ok; eauto.
+    - eapply (is_dirty_no_need ex); eauto.
+  Qed.
+
+  (* ================================================================ entering and leaving a job *)
+  Lemma ok_ex_grow w ex f : (~ ok w ex f) -> forall g, ok w ex g -> ok w (f :: ex) g.
+  Proof.
+    intros Hn g Hok. induction Hok as [g Hv Hex Ha Hb Hm Hd] using ok_ind2.
+    assert (Hokg : ok w ex g).
+    { apply ok_intro; auto. intros d Hin. destruct (Hd d Hin) as [A B]. split; [exact A|]. intro X. exact (proj1 (B X)). }
+    apply ok_intro; auto.
+    - intros [X|X]; [subst g; contradiction|contradiction].
+    - intros d Hin. destruct (Hd d Hin) as [A B]. split; [exact A|]. intro X. exact (proj2 (B X)).
+  Qed.
+
+  Lemma ok_ex_shrink w ex f : forall g, ok w (f :: ex) g -> ok w ex g.
+  Proof.
+    intros g Hok. induction Hok as [g Hv Hex Ha Hb Hm Hd] using ok_ind2.
+    apply ok_intro; auto.
+    - intro X. apply Hex. now right.
+    - intros d Hin. destruct (Hd d Hin) as [A B]. split; [exact A|]. intro X. exact (proj2 (B X)).
+  Qed.
+
+  Lemma JINV_enter w ex f :
+    JINV w ex -> valid w f -> watched (nm w f) = false -> ~ ok w ex f -> JINV w (f :: ex).
+  Proof.
+    intros ((Hw & Hmark) & Hx & Hc & Hu) Hv Hwt Hn.
+    split; [split; [exact Hw|]|split; [|split; [exact Hc|]]].
+    - intros g Hg Hex Ha Hm Hfl. apply ok_ex_grow; [exact Hn|]. apply Hmark; auto. intro X. apply Hex. now right.
+    - intros g Hg. destruct (Hx g Hg) as (A1 & A2 & A3 & A4 & A5). split; [exact A1|]. split; [exact A2|].
+      split; [exact A3|]. split; [exact A4|]. intro X. apply A5. intro Y. apply X. now right.
+    - intros x [<-|Hx']; [split; assumption|apply Hu; exact Hx'].
+  Qed.
+
+  Lemma JINV_leave w ex f :
+    JINV w (f :: ex) ->
+    (marked (ldw w f) = true -> r_failed (ldw w f) = None -> ok w ex f) ->
+    (r_ovr (get_row (dbs w) f) = false /\
+     (r_gen (get_row (dbs w) f) = true -> exists s, r_stamp (get_row (dbs w) f) = Some s /\
+        (stamp_eqb s (read_stamp w (nm w f)) = true \/ read_stamp w (nm w f) = SMissing))) ->
+    JINV w ex.
+  Proof.
+    intros ((Hw & Hmark) & Hx & Hc & Hu) Hself Hnoov.
+    split; [split; [exact Hw|]|split; [|split; [exact Hc|]]].
+    - intros g Hg Hex Ha Hm Hfl. destruct (Nat.eq_dec g f) as [->|Hne]; [auto|].
+      apply (ok_ex_shrink w ex f). apply Hmark; auto. intros [X|X]; [congruence|contradiction].
+    - intros g Hg. destruct (Hx g Hg) as (A1 & A2 & A3 & A4 & A5). split; [exact A1|]. split; [exact A2|].
+      split; [exact A3|]. split; [exact A4|]. intro X. destruct (Nat.eq_dec g f) as [->|Hne]; [exact Hnoov|].
+      apply A5. intros [Y|Y]; [congruence|contradiction].
+    - intros x Hx'. apply Hu. now right.
   Qed.
 End Job.
